@@ -1,5 +1,6 @@
 import AasVerif.Model.JsonSchemaWire
 import AasVerif.Model.JsonSchemaClosed
+import AasVerif.Model.JsonSchemaHier
 namespace AasVerif.Drive.C11
 open AasVerif AasVerif.JsonSchema AasVerif.JsonSchema.Wire
 
@@ -13,6 +14,9 @@ def rName : R → String
 
 /-- * `gen <mm>` → `ok <json of the definitions, keys sorted>` | `err` | `crash:<PythonExceptionType>`
     * `closed <mm>` → `1`/`0`: the hypothesis `refsClosed` of `Props.C11.refs_resolve`
+    * `hier <mm>` → two characters `1`/`0`: the hypothesis `hierOK` of the whole-document theorems
+      (`Props.C11.valid_data_accepted`, `Props.C12.document_enforced`, …) and the hypothesis `choicesOK`
+      of the dispatch theorem (`Props.C11.choice_dispatch`)
     * `val <mm> <k> (<definition name> <json>)*k` → `ok <k verdict characters 1/0/f>` | `err` | `crash:…`
       (each document is validated against `{"$ref": "#/definitions/<name>"}`)
     * `pat <pattern> <k> <text>*k` → `ok <fixed pattern text> <k × y/n/o>` | `crash:…`
@@ -29,6 +33,10 @@ def handle : List String → Option String
     let (mm, r) ← pMM ts
     if !r.isEmpty then none
     some (if refsClosed mm then "1" else "0")
+  | "hier" :: ts => do
+    let (mm, r) ← pMM ts
+    if !r.isEmpty then none
+    some ((if hierOK mm then "1" else "0") ++ (if choicesOK mm then "1" else "0"))
   | "val" :: ts => do
     let (mm, r) ← pMM ts
     let (docs, r) ← pCounted (fun ts => do
